@@ -231,6 +231,8 @@ def docmodel_handles(w):
 def record_accessors(w):
   """{parent table: {accessor: (child table, child field, kind)}} read from the members of the
   inner classes of MetaTableExtras built by _record_set/_record_ref_list_set/_record_inverse."""
+  if getattr(w, "_hB_accessors", None) is not None:
+    return w._hB_accessors
   ci = w.repo.cls("docmodel.MetaTableExtras")
   out = {}
   for name, inner in ci.inner.items():
@@ -244,12 +246,15 @@ def record_accessors(w):
     out[name] = acc
   if not out:
     raise AnalysisError("MetaTableExtras: no inner classes found")
+  w._hB_accessors = out
   return out
 
 
 def meta_ref_columns(w):
   """{(table, column): type string} for the columns of the built-in tables declared in
   schema.schema_create_actions (make_column(<id>, <type>) inside actions.AddTable(<table>, [...]))."""
+  if getattr(w, "_hB_metacols", None) is not None:
+    return w._hB_metacols
   fn = w.fn("schema.schema_create_actions")
   out = {}
   for c in calls_in(fn.node):
@@ -261,6 +266,7 @@ def meta_ref_columns(w):
           out[(c.args[0].value, e.args[0].value)] = e.args[1].value
   if len(out) < 50:
     raise AnalysisError("schema_create_actions: built-in columns not recognised")
+  w._hB_metacols = out
   return out
 
 
@@ -269,28 +275,99 @@ RECORD_SOURCES = {
   "get_table_rec": "_grist_Tables",
   "get_column_rec": "_grist_Tables_column",
 }
+HANDLE_RECORD_METHODS = ("lookupRecords", "lookupOne", "filter_records", "get_record")
 
 
-def record_table_of(fn, expr, w, handles, depth=0):
-  """Metadata table of the record (or record list element) an expression denotes, when it can be
-  told from the code: docmodel.get_table_rec(...), docmodel.add(<handle>, ...)[0], ... else None."""
-  if depth > 4:
+def _accessor_child(w, parent_table, attr):
+  """Child table of record-set accessor `attr`: on the known parent table, or -- when the parent
+  is not known -- the table every MetaTableExtras class defining `attr` agrees on."""
+  acc = record_accessors(w)
+  if parent_table is not None:
+    hit = acc.get(parent_table, {}).get(attr)
+    return hit[0] if hit else None
+  kids = {a[attr][0] for a in acc.values() if attr in a}
+  return kids.pop() if len(kids) == 1 else None
+
+
+def record_table_of(fn, expr, w, handles, depth=0, env=None, own_table=None):
+  """Metadata table of the record(s) an expression denotes (a record, a list/generator of records,
+  a record set), when it can be told from the code; else None. `env` maps comprehension variables
+  to tables; own_table is the table an @override_action method is registered for."""
+  env = env or {}
+  if depth > 8:
     return None
-  if isinstance(expr, ast.Subscript):
-    return record_table_of(fn, expr.value, w, handles, depth + 1)
   if isinstance(expr, ast.Name):
+    if expr.id in env:
+      return env[expr.id]
     ds = E.local_defs(fn.node, expr.id)
-    ts = {record_table_of(fn, d, w, handles, depth + 1) for d in ds}
-    if len(ts) == 1:
-      return ts.pop()
+    if not ds:
+      return None
+    ts = {record_table_of(fn, d, w, handles, depth + 1, env, own_table) for d in ds}
+    return ts.pop() if len(ts) == 1 else None
+  if isinstance(expr, ast.Subscript):
+    return record_table_of(fn, expr.value, w, handles, depth + 1, env, own_table)
+  if isinstance(expr, (ast.List, ast.Tuple)) and expr.elts:
+    ts = {record_table_of(fn, e, w, handles, depth + 1, env, own_table) for e in expr.elts}
+    return ts.pop() if len(ts) == 1 else None
+  if isinstance(expr, (ast.ListComp, ast.GeneratorExp, ast.SetComp)):
+    env2 = dict(env)
+    for g in expr.generators:
+      t = record_table_of(fn, g.iter, w, handles, depth + 1, env2, own_table)
+      tgt = g.target
+      if isinstance(tgt, ast.Tuple) and len(tgt.elts) >= 2 and isinstance(g.iter, ast.Call) and \
+          endswith(dotted(g.iter.func), "_bulk_action_iter"):
+        tgt = tgt.elts[1]
+      if isinstance(tgt, ast.Name):
+        env2[tgt.id] = t
+      else:
+        for x in ast.walk(tgt):
+          if isinstance(x, ast.Name):
+            env2[x.id] = None
+    return record_table_of(fn, expr.elt, w, handles, depth + 1, env2, own_table)
+  if isinstance(expr, ast.BinOp) and isinstance(expr.op, ast.Add):
+    ts = {record_table_of(fn, e, w, handles, depth + 1, env, own_table)
+          for e in (expr.left, expr.right)}
+    return ts.pop() if len(ts) == 1 else None
+  if isinstance(expr, ast.Call):
+    d = dotted(expr.func)
+    if d in ("sorted", "list", "tuple", "reversed", "set") and expr.args:
+      return record_table_of(fn, expr.args[0], w, handles, depth + 1, env, own_table)
+    if endswith(d, "_bulk_action_iter") and expr.args:
+      ok, v = const_value(expr.args[0])
+      if ok:
+        return v
+      ps = fn.fi.params()
+      if isinstance(expr.args[0], ast.Name) and len(ps) >= 2 and expr.args[0].id == ps[1]:
+        return own_table
+      return None
+    if isinstance(expr.func, ast.Attribute):
+      m = expr.func.attr
+      recv = expr.func.value
+      if fn.type_of(recv) == T.DOCMODEL:
+        if m in RECORD_SOURCES:
+          return RECORD_SOURCES[m]
+        if m in ("add", "insert", "insert_after") and expr.args:
+          return handle_table_of(fn, expr.args[0], w, handles, depth + 1)
+      if m in HANDLE_RECORD_METHODS:
+        # <docmodel handle>.lookupRecords(...) / <docmodel handle>.table.get_record(...)
+        h = recv.value if isinstance(recv, ast.Attribute) and recv.attr == "table" else recv
+        if isinstance(h, ast.Attribute) and fn.type_of(h.value) == T.DOCMODEL:
+          return handles.get(h.attr)
     return None
-  if isinstance(expr, ast.Call) and isinstance(expr.func, ast.Attribute):
-    m = expr.func.attr
-    if fn.type_of(expr.func.value) == T.DOCMODEL:
-      if m in RECORD_SOURCES:
-        return RECORD_SOURCES[m]
-      if m in ("add", "insert", "insert_after") and expr.args:
-        return handle_table_of(fn, expr.args[0], w, handles, depth + 1)
+  if isinstance(expr, ast.Attribute):
+    # <docmodel handle>.all
+    if expr.attr == "all" and isinstance(expr.value, ast.Attribute) and \
+        fn.type_of(expr.value.value) == T.DOCMODEL:
+      return handles.get(expr.value.attr)
+    base = record_table_of(fn, expr.value, w, handles, depth + 1, env, own_table)
+    kid = _accessor_child(w, base, expr.attr)
+    if kid is not None:
+      return kid
+    if base is not None:
+      typ = meta_ref_columns(w).get((base, expr.attr))
+      if typ and typ.startswith(("Ref:", "RefList:")):
+        return typ.split(":", 1)[1]
+    return None
   return None
 
 
@@ -301,10 +378,7 @@ def handle_table_of(fn, expr, w, handles, depth=0):
     if fn.type_of(expr.value) == T.DOCMODEL:
       return handles.get(expr.attr)
     rt = record_table_of(fn, expr.value, w, handles, depth + 1)
-    if rt is not None:
-      acc = record_accessors(w).get(rt, {})
-      if expr.attr in acc:
-        return acc[expr.attr][0]
+    return _accessor_child(w, rt, expr.attr)
   return None
 
 
